@@ -128,19 +128,19 @@ BEYOND = {
  "C04": "Every repeatable child repeated 65 and 300 times; one Rule object driven through repeated validations; a rule whose children section does not parse is still driven over the names it mentions. Known names in Clark notation / with a prefix among the unknown ones; non-string content through constructor and setter.",
  "C05": "Trees producing 103, 132 and 1102 errors in one walk; repeated leaves of which one is invalid by an attribute value. Per-node verdicts also through Rule objects re-used for all nodes of one name (fail-fast call first); unknown elements named like pieces of 'metadata'.",
  "C06": "Chains of 13/30/70, stars of 12+1/40/300, 17x3, 14 attributes, seven prefixes over four URIs, 300-5000 character texts; prefixes declared before attachment; extras stored before attributes; a hand-written JSON document loaded and re-saved. CR LF in text; a default namespace (key None) - which does not survive JSON: recorded as open known findings F24a-f.",
- "C07": "The same deep/wide shapes; elements with 5/9/14 attributes, qualified attributes and 8 namespace declarations; values with 144 markup characters and up to 5000 characters; an inner node and the copy of an inner node exported as documents. Optional level / parent arguments; attribute names occurring in the EML exporter's boiler-plate; failing calls before every work item; export - edit in place - export; one id shared by all nodes.",
+ "C07": "The same deep/wide shapes; elements with 5/9/14 attributes, qualified attributes and 8 namespace declarations; values with 144 markup characters and up to 5000 characters; an inner node and the copy of an inner node exported as documents. Optional level / parent arguments; attribute names occurring in the EML exporter's boiler-plate; failing calls before every work item; export - edit in place - export; one id shared by all nodes. A prefix the root does not bind, declared separately by every element below it.",
  "C08": "Texts longer than any line width; the text of a childless element must be stable exactly across import-export-import. Every work item starts with an ill-formed import, an export failing part-way and normalize() calls; a general entity from an internal DTD subset.",
  "C09": "Around every transition the queries are run before and after the edit on the same objects. Beyond the universes: one parent with 9-10 (9-12) children, every two-name pattern x every single shift; 17-70 children with sparse same-name patterns; chains of 13-64 nodes with all queries. Every insertion index from -len-4 to len+4; the caller's path list after a query; one id shared by all nodes; a parent with a default namespace.",
  "C10": "Every element with a foreign child at every position: what validate.node allows validate.tree must accept. Integrity phase: odd look-ups, some hundred refused fail-fast whole-tree validations, then every witness again. A Rule object that refused three kinds of faulty node must accept its witness; prefixed witnesses; Rule's static list helpers called on the live table.",
- "C11": "Bases with 24 children, depth 30 and 5000-character text; candidates created with a parent link; the name paths that exist below each node. Clark-notation extras, xml:-keyed plain attributes; one item of every base runs first in its block (pristine process image).",
+ "C11": "Bases with 24 children, depth 30 and 5000-character text; candidates created with a parent link; the name paths that exist below each node. Clark-notation extras, xml:-keyed plain attributes; one item of every base runs first in its block (pristine process image). Every node exported as a document root; enumerated values one letter-case step off; blank tails.",
  "C12": "Copies of the deep/wide shapes and of a 4226-node tree; blank, '0' and non-string values. A child with an extra prefix of its own, a cleared parent link, a failed (too deep) copy before every work item; queries on original then copy; the copy attached next to its source, then a prefix re-bound on or removed from either of the two.",
  "C13": "Beyond the BFS: parent with 0-6 of six prefixes x every subset bound by the child x leaf or not x append / index 0; chains of 26/30/64 nodes. A failed attach (non-numeric index) changes nothing; copy and JSON reload show the source's bindings node for node.",
- "C14": "Outside the BFS: 70000 (140000) nodes created, copied and imported in one process; a child replaced by one of its own siblings for every pair of positions. Both importers on a document with id attributes, repeatedly.",
+ "C14": "Outside the BFS: 70000 (140000) nodes created, copied and imported in one process; a child replaced by one of its own siblings for every pair of positions. Both importers on a document with id attributes, repeatedly. The children flag of delete-by-id as 1, 2, 'yes', 0; reference chains of 3 and 4 expanded in every document order.",
  "C15": "Trees also assembled with add_child(child, index) and with the root's children replaced by their copies; contents with decimal commas.",
  "C16": "Role counts up to 3+4, 257/300/1000 ids with first, middle and last referenced, ids on the root / dataset / inside metadata; copies compared with their sources on every field (tails, extras). A prefix declared deep inside a referenced element; referenced child and referencing element binding one prefix differently. References with no value or a value equal to an id only after trimming.",
  "C17": "For every candidate, the rule's other names in declared order each repeated 1/2/3/8/20 times (up to several hundred existing children); a Rule object that validated before being asked; every rule refuses every known name it does not list. is_allowed_child again after each refusal; a candidate carrying a parent link to another node; validity after insertion also judged by the Rule object that was asked.",
  "C18": "Compound differences a folded comparison cannot see; texts of 400 characters differing at the end or in the middle; non-string values; the deep/wide shapes. Copies of inner nodes, of trees whose children have no parent back-reference and of a parent sharing a subtree with another; a comparison after one that raised.",
- "C19": "Evaluate - edit one text in place - evaluate again, for every text of the baseline and of every single-knob deviation; several given names; paras nested in another para's list; a creator nine levels down. Failing edits before the evaluation; one id shared by all nodes.",
+ "C19": "Evaluate - edit one text in place - evaluate again, for every text of the baseline and of every single-knob deviation; several given names; paras nested in another para's list; a creator nine levels down. Failing edits before the evaluation; one id shared by all nodes. Coverage of each of the three kinds and with a references child only.",
  "C20": "Gaps of 9-5000 blanks of six kinds in four positions; 3000-word texts; forty 9000-byte documents shifted byte by byte; compatibility characters; protected white space preserved exactly; blank text of a childless element comes back empty. CDATA next to text; text from an internal-subset entity.",
 }
 for _k, _v in BEYOND.items():
